@@ -23,11 +23,15 @@ fn ok_or_err<T>(r: Result<Result<T, StamError>, String>, f: impl Fn(T) -> String
     }
 }
 
-fn parse_value(s: &str) -> DataValue {
+/// values: n | b:0/1 | i:<int> | s:<str> | f:<quarters> (the float q/4) | d:<unix seconds> | l:<elem>|<elem>…
+pub fn parse_value(s: &str) -> DataValue {
     match s.split_once(':') {
         Some(("i", v)) => DataValue::Int(v.parse().unwrap_or(0)),
         Some(("s", v)) => DataValue::String(v.to_string()),
         Some(("b", v)) => DataValue::Bool(v == "1"),
+        Some(("f", v)) => DataValue::Float(v.parse::<i64>().unwrap_or(0) as f64 / 4.0),
+        Some(("d", v)) => DataValue::Datetime(DateTime::from_timestamp(v.parse().unwrap_or(0), 0).unwrap().fixed_offset()),
+        Some(("l", v)) => DataValue::List(v.split('|').filter(|x| !x.is_empty()).map(parse_value).collect()),
         _ => DataValue::Null,
     }
 }
@@ -37,7 +41,9 @@ pub fn show_value(v: &DataValue) -> String {
         DataValue::String(s) => format!("s:{}", s),
         DataValue::Bool(b) => format!("b:{}", *b as u8),
         DataValue::Null => "n".into(),
-        other => format!("o:{:?}", other).replace(' ', "_"),
+        DataValue::Float(f) => format!("f:{}", (*f * 4.0) as i64),
+        DataValue::Datetime(d) => format!("d:{}", d.timestamp()),
+        DataValue::List(l) => format!("l:{}", l.iter().map(show_value).collect::<Vec<_>>().join("|")),
     }
 }
 
@@ -182,8 +188,20 @@ impl Exec {
                 let r = guarded(std::panic::AssertUnwindSafe(|| store.add_resource(TextResourceBuilder::new().with_id(t[2]).with_text(text))));
                 ok_or_err(r, |h| h.as_usize().to_string())
             }
-            "addset" if t.len() == 3 => {
-                let r = guarded(std::panic::AssertUnwindSafe(|| store.add_dataset(AnnotationDataSetBuilder::new().with_id(t[2]))));
+            "addset" if t.len() == 3 || t.len() == 4 => {
+                if t.len() == 4 {
+                    // a vocabulary-only dataset: keys declared, no data
+                    let r = guarded(std::panic::AssertUnwindSafe(|| {
+                        let mut set = AnnotationDataSet::new(Config::default()).with_id(t[2]);
+                        for k in t[3].split(',').filter(|x| !x.is_empty()) {
+                            set.insert(DataKey::new(k))?;
+                        }
+                        store.insert(set)
+                    }));
+                    return ok_or_err(r, |h| h.as_usize().to_string());
+                }
+                let b = AnnotationDataSetBuilder::new().with_id(t[2]);
+                let r = guarded(std::panic::AssertUnwindSafe(|| store.add_dataset(b)));
                 ok_or_err(r, |h| h.as_usize().to_string())
             }
             "adddata" if t.len() == 6 => {
@@ -234,6 +252,27 @@ impl Exec {
             }
             "rmres" if t.len() == 3 => ok_or_err(guarded(std::panic::AssertUnwindSafe(|| store.remove_resource(t[2]))), |_| "-".into()),
             "rmset" if t.len() == 3 => ok_or_err(guarded(std::panic::AssertUnwindSafe(|| store.remove_dataset(t[2]))), |_| "-".into()),
+            "finddata" if t.len() >= 5 => {
+                // C10: find_data on the store (set "*" = any set, key "*" = any key), operator in prefix tokens
+                let mut pos = 4;
+                let op = match crate::fam::data::parse_op(&t, &mut pos) {
+                    Some(o) => o,
+                    None => return "bad-op".into(),
+                };
+                let r = guarded(std::panic::AssertUnwindSafe(|| {
+                    let it: Vec<(usize, usize)> = match (t[2], t[3]) {
+                        ("*", "*") => store.find_data(false, false, op).map(|d| (d.set().handle().as_usize(), d.handle().as_usize())).collect(),
+                        ("*", k) => store.find_data(false, k, op).map(|d| (d.set().handle().as_usize(), d.handle().as_usize())).collect(),
+                        (s, "*") => store.find_data(s, false, op).map(|d| (d.set().handle().as_usize(), d.handle().as_usize())).collect(),
+                        (s, k) => store.find_data(s, k, op).map(|d| (d.set().handle().as_usize(), d.handle().as_usize())).collect(),
+                    };
+                    it
+                }));
+                match r {
+                    Ok(v) => if v.is_empty() { "-".into() } else { v.iter().map(|(s, d)| format!("{}.{}", s, d)).collect::<Vec<_>>().join(",") },
+                    Err(m) => format!("panic:{}", m.chars().take(60).collect::<String>()),
+                }
+            }
             "resolve" if t.len() == 4 => {
                 // C03: look a public identifier up through the API; answer = handle of the item found
                 let id = unhex_s(t[3]);
@@ -737,6 +776,27 @@ impl Gen {
         }
     }
     fn target(&mut self) -> String {
+        if self.res.len() >= 2 && self.rng.chance(7) {
+            // several fresh, adjacent selections on one resource followed by selections on another:
+            // consecutive handles per resource (the shape internal range-compression looks for)
+            let kind = *self.rng.pick(&['M', 'C', 'X']);
+            let a = self.rng.below(self.res.len());
+            let mut b = self.rng.below(self.res.len());
+            if b == a { b = (a + 1) % self.res.len(); }
+            let (ra, na) = self.res[a].clone();
+            let (rb, nb) = self.res[b].clone();
+            let mut subs = vec![];
+            let start = self.rng.below(3);
+            for i in 0..(2 + self.rng.below(2)) {
+                let x = (start + i).min(na);
+                subs.push(format!("T:{}:b{}:b{}", ra, x, (x + 1).min(na)));
+            }
+            for i in 0..(1 + self.rng.below(2)) {
+                let x = (start + i + self.rng.below(2)).min(nb);
+                subs.push(format!("T:{}:b{}:b{}", rb, x, (x + 1 + self.rng.below(2)).min(nb)));
+            }
+            return format!("{}[{}]", kind, subs.join(";"));
+        }
         if self.rng.chance(72) {
             return self.simple_target(&[0, 1, 1, 1, 1, 2, 2, 3, 3, 4, 5, 6]);
         }
@@ -793,6 +853,11 @@ impl Gen {
         if c < 10 {
             let id = format!("s{}", self.rng.below(3));
             if !self.sets.contains(&id) { self.sets.push(id.clone()); }
+            if self.rng.chance(40) {
+                // a dataset that declares keys but holds no data (yet)
+                let keys: Vec<String> = (0..1 + self.rng.below(3)).map(|_| format!("k{}", self.rng.below(3))).collect();
+                return format!("st addset {} {}", id, keys.join(","));
+            }
             return format!("st addset {}", id);
         }
         if c < 17 {
@@ -824,6 +889,102 @@ impl Gen {
             _ => format!("st rmset {}", self.pick_set()),
         }
     }
+}
+
+/// scripted openings that set up the shapes removals are sensitive to (vocabulary-only datasets with
+/// metadata annotations, shared and repeated data, diamonds of annotations on annotations, complex
+/// selectors across resources); random operations follow
+fn scenario(g: &mut Gen) -> Vec<String> {
+    let mut v: Vec<String> = vec![];
+    let n0 = 4 + g.rng.below(6);
+    let n1 = 4 + g.rng.below(6);
+    v.push(format!("st addres r0 {}", n0));
+    g.res.push(("r0".into(), n0));
+    let other = format!("s{}", 1 + g.rng.below(2));
+    match g.rng.below(7) {
+        0 => {
+            // vocabulary-only dataset, metadata annotation on one of its keys (own data elsewhere), annotation on that
+            v.push("st addset s0 k0,k1".into());
+            g.sets.push("s0".into());
+            let d = if g.rng.chance(60) { format!(" {}/k2/s:v1", other) } else { String::new() };
+            v.push(format!("st annot a0 K:s0:k{}{}", g.rng.below(2), d));
+            if g.rng.chance(60) { v.push(format!("st annot a1 A:a0 {}/k0/i:1", other)); g.anns.push("a1".into()); }
+            g.anns.push("a0".into());
+            g.nann = 2;
+            if g.rng.chance(50) { v.push(format!("st annot ~ T:r0:b0:b2 {}/k0/i:1", other)); g.nann += 1; }
+            v.push(match g.rng.below(3) { 0 => "st rmset s0".to_string(), 1 => format!("st rmkey s0 k{} {}", g.rng.below(2), g.rng.below(2)), _ => "st annot ~ S:s0".to_string() });
+        }
+        1 => {
+            // the same data named twice / shared by two annotations, then non-strict or strict removal
+            v.push("st annot a0 T:r0:b0:b2 s0/k0/s:v0 s0/k0/s:v0".into());
+            v.push("st annot a1 T:r0:b1:b3 s0/k0/s:v0 s0/k1/i:1".into());
+            v.push("st annot a2 D:s0:#0".into());
+            g.anns.extend(["a0".to_string(), "a1".into(), "a2".into()]);
+            g.sets.push("s0".into());
+            g.nann = 3;
+            v.push(match g.rng.below(3) { 0 => format!("st rmdata s0 #0 {}", g.rng.below(2)), 1 => format!("st rmkey s0 k0 {}", g.rng.below(2)), _ => format!("st rmkey s0 k1 {}", g.rng.below(2)) });
+        }
+        2 => {
+            // diamond of annotations on annotations
+            v.push("st annot a0 T:r0:b0:b3".into());
+            v.push("st annot a1 A:a0".into());
+            v.push("st annot a2 AO:a0:b1:b2".into());
+            v.push(format!("st annot a3 {}[A:a1;A:a2]", g.rng.pick(&['M', 'C', 'X'])));
+            v.push("st annot a4 A:a3 s0/k0/s:v0".into());
+            g.anns.extend((0..5).map(|i| format!("a{}", i)));
+            g.nann = 5;
+            v.push(format!("st rmann a{}", g.rng.below(4)));
+        }
+        3 => {
+            // complex selector across two resources with consecutive fresh handles
+            v.push(format!("st addres r1 {}", n1));
+            g.res.push(("r1".into(), n1));
+            let pre = g.rng.below(3);
+            for i in 0..pre { v.push(format!("st annot ~ T:r1:b{}:b{}", i, i + 1)); }
+            g.nann = pre;
+            let k = 2 + g.rng.below(2);
+            let mut subs: Vec<String> = (0..k).map(|i| format!("T:r0:b{}:b{}", i, i + 1)).collect();
+            subs.push(format!("T:r1:b{}:b{}", pre, pre + 1));
+            if g.rng.chance(50) { subs.push(format!("T:r1:b{}:b{}", pre + 1, pre + 2)); }
+            v.push(format!("st annot a0 {}[{}] s0/k0/s:v0", g.rng.pick(&['M', 'C', 'X']), subs.join(";")));
+            g.anns.push("a0".into());
+            g.nann += 1;
+        }
+        4 => {
+            // metadata annotations on data, key, set and resource, then removal of the referent
+            v.push("st adddata s0 d0 k0 s:v0".into());
+            g.data_ids.push(("s0".into(), "d0".into()));
+            g.sets.push("s0".into());
+            v.push("st annot a0 D:s0:d0".into());
+            v.push("st annot a1 K:s0:k0".into());
+            v.push("st annot a2 S:s0".into());
+            v.push("st annot a3 R:r0".into());
+            v.push(format!("st annot a4 {}[A:a0;A:a1;A:a2;A:a3]", g.rng.pick(&['M', 'C', 'X'])));
+            g.anns.extend((0..5).map(|i| format!("a{}", i)));
+            g.nann = 5;
+            v.push(match g.rng.below(5) { 0 => format!("st rmdata s0 d0 {}", g.rng.below(2)), 1 => format!("st rmkey s0 k0 {}", g.rng.below(2)), 2 => "st rmset s0".to_string(), 3 => "st rmres r0".to_string(), _ => format!("st rmann a{}", g.rng.below(4)) });
+        }
+        5 => {
+            // several keys, then removal of an early key (later keys must keep their data)
+            for i in 0..3 { v.push(format!("st adddata s0 ~ k{} s:v{}", i, i)); v.push(format!("st adddata s0 ~ k{} i:{}", i, i)); }
+            g.sets.push("s0".into());
+            v.push("st annot a0 T:r0:b0:b1 s0/k1/s:v1 s0/k2/i:2".into());
+            g.anns.push("a0".into());
+            g.nann = 1;
+            v.push(format!("st rmkey s0 k{} {}", g.rng.below(2), g.rng.below(2)));
+        }
+        _ => {
+            // relative offsets three levels deep, then removal in the middle
+            v.push("st annot a0 T:r0:b0:e0".into());
+            v.push("st annot a1 AO:a0:b1:e-1 s0/k0/s:v0".into());
+            v.push("st annot a2 AO:a1:b0:b1".into());
+            v.push("st annot a3 AO:a2:e0:e0 s0/k0/s:v0".into());
+            g.anns.extend((0..4).map(|i| format!("a{}", i)));
+            g.nann = 4;
+            v.push(format!("st rmann a{}", 1 + g.rng.below(2)));
+        }
+    }
+    v
 }
 
 fn op_class(line: &str) -> String {
@@ -1076,7 +1237,7 @@ pub fn run(opts: &Opts) -> Report {
          non-trivial = scripts with at least one removal and one annotation on an annotation; distinct = distinct scripts",
     );
     let property = opts.property.as_deref();
-    let (nscripts, maxops) = if opts.thorough() { (12000, 60) } else { (1200, 36) };
+    let (nscripts, maxops) = if opts.thorough() { (40000, 60) } else { (4000, 36) };
     // corpus of minimised past failures first
     let corpus_dir = std::path::Path::new(env!("CARGO_MANIFEST_DIR")).join("corpus/store");
     if let Ok(rd) = std::fs::read_dir(&corpus_dir) {
@@ -1094,7 +1255,11 @@ pub fn run(opts: &Opts) -> Report {
     for i in 0..nscripts {
         let mut g = Gen { rng: Rng::new(opts.seed.wrapping_mul(1_000_003).wrapping_add(i as u64)), res: vec![], sets: vec![], keys: vec![], anns: vec![], nann: 0, data_ids: vec![], next_id: 0 };
         let n = 4 + g.rng.below(maxops);
-        let script: Vec<String> = (0..n).map(|_| g.op()).collect();
+        let mut script: Vec<String> = if i % 4 == 3 { scenario(&mut g) } else { vec![] };
+        if !script.is_empty() {
+            rep.count("scenario-script");
+        }
+        script.extend((0..n).map(|_| g.op()));
         let _ = &g.keys;
         let nontrivial = script.iter().any(|l| l.starts_with("st rm")) && script.iter().any(|l| l.contains(" A:") || l.contains("AO:"));
         run_script(&mut rep, &script, property);
